@@ -186,6 +186,36 @@ func init() {
 	reg(rtPkg+".CutActive", func(m *Machine, a []Value) Value {
 		return smt.Bool(m.Cfg.Cuts[concStr(m, a[0], "CutActive")])
 	})
+	reg(rtPkg+".PadBigEndian", func(m *Machine, a []Value) Value {
+		n := int(concInt(m, a[1], "PadBigEndian length"))
+		if l, ok := a[0].(LazyBytes); ok {
+			if n <= 0 {
+				return m.forceLazy(l)
+			}
+			fits := smt.True
+			if m.IntMode() || 8*n < m.bigW()-1 {
+				fits = m.bigLt(l.T, m.bigConst(pow2(8*n)))
+			}
+			if m.Branch(fits) {
+				bs := make([]*smt.Term, n)
+				for i := 0; i < n; i++ {
+					bs[i] = m.bigByteAt(l.T, n-1-i)
+				}
+				return m.bytesSlice(bs)
+			}
+			return m.forceLazy(l)
+		}
+		sv := a[0].(SliceVal)
+		if sv.Len >= n {
+			return sv
+		}
+		bs := make([]*smt.Term, 0, n)
+		for i := 0; i < n-sv.Len; i++ {
+			bs = append(bs, m.mkByte(0))
+		}
+		bs = append(bs, m.sliceBytes(sv)...)
+		return m.bytesSlice(bs)
+	})
 	reg(rtPkg+".Symbolic", func(m *Machine, a []Value) Value { return smt.Bool(!m.Cfg.IsConc) })
 
 	// ----- internal/bytealg, strings, bytes -----
@@ -299,6 +329,33 @@ func init() {
 	reg("strings.Join", func(m *Machine, a []Value) Value {
 		sv := a[0].(SliceVal)
 		sep := a[1].(StrVal)
+		anyTok := false
+		for i := 0; i < sv.Len; i++ {
+			if e := m.sliceElem(sv, i).(StrVal); e.Abs != nil && e.Abs.Tbl != nil {
+				anyTok = true
+			}
+		}
+		if anyTok {
+			sepS, ok := sep.Concrete()
+			if !ok || sepS == "" {
+				m.unsupported("strings.Join of table tokens with a symbolic or empty separator")
+			}
+			parts := make([]StrVal, sv.Len)
+			for i := range parts {
+				e := m.sliceElem(sv, i).(StrVal)
+				if e.Abs != nil && e.Abs.Tbl != nil {
+					for _, w := range e.Abs.Tbl {
+						if strings.Contains(w, sepS) {
+							m.unsupported("strings.Join: a table entry contains the separator")
+						}
+					}
+				} else if c, ok := e.Concrete(); !ok || c == "" || strings.Contains(c, sepS) {
+					m.unsupported("strings.Join of table tokens with a part that is symbolic, empty or contains the separator")
+				}
+				parts[i] = e
+			}
+			return StrVal{Abs: &AbsStr{Ctor: "join:" + sepS, Parts: parts}}
+		}
 		out := StrVal{}
 		for i := 0; i < sv.Len; i++ {
 			if i > 0 {
@@ -307,6 +364,59 @@ func init() {
 			out = m.strConcat(out, m.sliceElem(sv, i).(StrVal))
 		}
 		return out
+	})
+	reg("strings.Fields", func(m *Machine, a []Value) Value {
+		s := a[0].(StrVal)
+		if s.Abs != nil && s.Abs.Ctor == "join: " {
+			// parts contain no white space? table entries were checked for the separator only: check the rest here
+			for _, p := range s.Abs.Parts {
+				ws := p.Abs != nil && p.Abs.Tbl != nil
+				var list []string
+				if ws {
+					list = p.Abs.Tbl
+				} else if c, ok := p.Concrete(); ok {
+					list = []string{c}
+				}
+				for _, w := range list {
+					if strings.ContainsAny(w, "\t\n\v\f\r \u0085\u00a0") {
+						m.unsupported("strings.Fields of a join whose parts contain white space")
+					}
+				}
+			}
+			st := types.NewSlice(types.Typ[types.String])
+			out := m.makeSlice(types.Typ[types.String], len(s.Abs.Parts), len(s.Abs.Parts))
+			_ = st
+			arr := m.backing(out)
+			for i, p := range s.Abs.Parts {
+				arr.E[out.Off+i] = p
+			}
+			return out
+		}
+		c, ok := s.Concrete()
+		if !ok {
+			m.unsupported("strings.Fields of a symbolic string")
+		}
+		fs := strings.Fields(c)
+		out := m.makeSlice(types.Typ[types.String], len(fs), len(fs))
+		arr := m.backing(out)
+		for i, f := range fs {
+			arr.E[out.Off+i] = StrVal{S: f}
+		}
+		return out
+	})
+	reg("strings.TrimSpace", func(m *Machine, a []Value) Value {
+		s := a[0].(StrVal)
+		if s.Abs != nil && strings.HasPrefix(s.Abs.Ctor, "join:") {
+			return s // parts are non-empty and free of white space at both ends (checked by Fields / Join)
+		}
+		if s.Abs != nil && s.Abs.Tbl != nil {
+			return s
+		}
+		c, ok := s.Concrete()
+		if !ok {
+			m.unsupported("strings.TrimSpace of a symbolic string")
+		}
+		return StrVal{S: strings.TrimSpace(c)}
 	})
 	reg("(*strings.Builder).copyCheck", func(m *Machine, a []Value) Value { return nil })
 	reg("(*strings.Builder).String", func(m *Machine, a []Value) Value {
